@@ -346,6 +346,14 @@ pub fn build_adapter(spec: &str, tmps: &mut TmpFiles, rt: &tokio::runtime::Runti
             }
             Box::new(StringAdapter::new(text))
         }
+        // raw policy text: T@<enc text> = StringAdapter, Ft@<enc text> = FileAdapter
+        "T" => Box::new(StringAdapter::new(dec(parts[1]))),
+        "Ft" => {
+            let path = tmp_path();
+            std::fs::write(&path, dec(parts[1])).unwrap();
+            tmps.0.push(path.clone());
+            Box::new(casbin::FileAdapter::new(path))
+        }
         "X" => {
             let n = parts.len();
             let inner = build_adapter(&parts[1..n - 1].join("@"), tmps, rt);
